@@ -260,15 +260,25 @@ def scenario(case):
     mapped = [rq["prim"] in MAPPED[target] for rq in case["reqs"]]
     expect_error = any(m and not rows for m, (kind, rows) in zip(mapped, exp))
 
+    src = top
+    if case.get("as_list"):
+        # compile accepts a list of tops too: this top alone in a list, or behind another (trivial) one
+        if case["as_list"] == 2:
+            other = h.Module(name="ListMate")
+            other.add(h.Signal(name="s"))
+            src = [other, top]
+        else:
+            src = [top]
+
     def do_compile():
         how = case["how"]
         if how == "direct":
-            return pdkmod.compile(top)
+            return pdkmod.compile(src)
         if how == "default":
-            return h.pdk.compile(top)
+            return h.pdk.compile(src)
         if how == "name":
-            return h.pdk.compile(top, pdk=REGNAME[target])
-        return h.pdk.compile(top, pdk=regmod)
+            return h.pdk.compile(src, pdk=REGNAME[target])
+        return h.pdk.compile(src, pdk=regmod)
 
     if case.get("pre_walk"):
         # an earlier, unrelated traversal of the same hierarchy (here: the do-nothing base walker) must not matter
@@ -613,6 +623,8 @@ def record(res, case, v):
     for sig, detail in v["fails"]:
         res.fail(sig, case, detail)
     feats = ["pdk_" + case["target"], "how_" + case["how"], "depth%d" % case["shape"]["depth"]] + ["prim_" + r["prim"] for r in case["reqs"]]
+    if case.get("as_list"):
+        feats.append("compile_source_is_a_list")
     if case.get("twice"):
         feats.append("compile_twice")
     if len(case["pdks"]) > 1:
@@ -715,6 +727,7 @@ def shard(idx, n, tier):
         levels = [draw(st.integers(0, depth - 1)) for _ in reqs]
         how = draw(st.sampled_from(["direct", "direct", "name", "module", "default"]))
         return {"pdks": [target] + others, "target": target, "how": how, "twice": draw(st.booleans()), "reqs": reqs, "pre_walk": draw(st.booleans()),
+                "as_list": draw(st.sampled_from([0, 0, 1, 2])),
                 "shape": {"depth": depth, "levels": levels, "tie": draw(st.booleans())}}
 
     @hypothesis.seed(env.subseed(PID, idx))
